@@ -36,6 +36,7 @@ type gor struct {
 	what    string // what it is blocked on (diagnostics)
 	daemon  bool   // timer pseudo-goroutines etc.
 	yielding bool  // inside quiesce: runs again only when nobody else can
+	top      *frame // innermost interpreter frame (GC roots)
 }
 
 type enginePanic interface{ enginePanic() }
